@@ -223,6 +223,25 @@ def drought_events(year, plant_md, length=120):
     return [{"from": dstr(p + dt.timedelta(days=15)), "to": dstr(p + dt.timedelta(days=15 + length)), "P": 0, "ET0": 9}]
 
 
+TIGHT_SOIL = {"type": "custom", "kw": {"dz": [0.1] * 12, "cn": 70, "rew": 9}, "layers": [[1.2, 0.32, 0.50, 0.55, 4.0, 100]]}
+
+
+def shallow_pond_cases(rnd, year=2001, crops=("Maize", "Tomato", "Sorghum"), storms=(13, 16, 19, 22, 25, 28)):
+    """Bunded field on a slowly draining soil under a developed canopy: dry weather with light showers, then one storm whose pond drains
+    over the following days - the sweep of storm sizes makes the pond pass through every depth range (of the order of a day's transpiration
+    demand and below) during the first days of submergence, and a second wet spell keeps it ponded for a week."""
+    p = dt.date(year, 5, 1)
+    out = []
+    for i, storm in enumerate(storms):
+        ev = [{"from": f"{year}/01/01", "to": f"{year}/12/31", "P": 0, "ET0": 5.0, "Tmin": 18, "Tmax": 30}]
+        ev += [{"date": dstr(p + dt.timedelta(days=d)), "P": 3.0} for d in range(0, 170, 6)]
+        ev += [{"date": dstr(p + dt.timedelta(days=65)), "P": float(storm)}]
+        ev += [{"date": dstr(p + dt.timedelta(days=90 + k)), "P": 9.0 + i} for k in range(7)]
+        out.append(scenario(crops[i % len(crops)], seed=rnd.randrange(10 ** 6), plant_md=(5, 1), year=year, soil_spec=TIGHT_SOIL,
+                            field={"bunds": True, "z_bund": 0.15, "bund_water": 0.0}, events=ev))
+    return out
+
+
 def diverse(rnd, n, crops=None, soils=None, focus=None):
     """n random valid scenarios mixing all dimensions; `focus` biases some of them"""
     out = []
@@ -328,5 +347,11 @@ def hard_cases(rnd, n=None, year=2001):
         S("Wheat", seed=rnd.randrange(10 ** 6), soil_spec=LAYERED_SOILS["clay_over_sand"], irr={"method": 4, "kw": {"NetIrrSMT": 70}}, regime="arid",
           iwc={"wc_type": "Pct", "value": [60, 60], "depth_layer": [1, 2]}),
     ]
+    cases += [
+        # a winter crop whose seasons span the turn of the year (everything that is fixed per season but tabulated per calendar year)
+        S("Wheat", "Loam", seed=rnd.randrange(10 ** 6), plant_md=(10, 15), year=year, seasons=2, irr={"method": 1, "kw": {"SMT": [55] * 4, "AppEff": 85, "WetSurf": 60}}),
+    ]
+    # shallow ponds behind bunds under a canopy (pond of the order of a day's transpiration demand during the first days of submergence)
+    cases += shallow_pond_cases(rnd, year, crops=("Maize", "Maize", "Tomato"), storms=(13, 22, 25))
     rnd.shuffle(cases)
     return cases if n is None else cases[:n]
